@@ -370,6 +370,11 @@ def encode(mod, fname, args, opts=None):
         term = instrs[-1]
         if term.op == "ret":
             v = ex.operand(term.args[0], env) if term.args else None
+            if opts.int_mode and opts.int_nowrap and isinstance(v, IV) and v.w > 1 and opts.track_ub:
+                e = simp(v.t >= (1 << (v.w - 1)))
+                if not is_false(e):
+                    res.ub.append(("ENC: returned value >= 2^%d (read as signed by the caller)" % (v.w - 1), term.text.strip(),
+                                   simp(z3.And(pc, e))))
             if res.ret is None or is_false(res.ret_cond):
                 res.ret = v
             elif v is not None:
@@ -920,6 +925,8 @@ class Exec:
             m = 53 if kind == "double" else 24
             w = a.size()
             if isinstance(a, IV):
+                if op == "sitofp" and self.opts.int_nowrap and w > 1:
+                    self.ub("ENC: value >= 2^%d used as signed (sitofp)" % (w - 1), ins, a.t >= (1 << (w - 1)))
                 ai = a.t if op == "sitofp" else a.t % (1 << w)
                 r = z3.ToReal(ai)
                 inexact = z3.Not(z3.And(ai <= (1 << m), ai >= -(1 << m)))
@@ -1303,8 +1310,7 @@ class IntExec(Exec):
             ca, cb = self.const(a), self.const(b)
             if o.int_nowrap and w > 1 and (op in ("ashr", "sdiv", "srem") or "nsw" in fl):
                 for v in (a, b):
-                    if self.const(v) is None:
-                        self.ub("ENC: value >= 2^%d used as signed (%s)" % (w - 1, op), ins, v.t >= (1 << (w - 1)))
+                    self.ub("ENC: value >= 2^%d used as signed (%s)" % (w - 1, op), ins, v.t >= (1 << (w - 1)))
             if w == 1:
                 x, y = a.t, b.t
                 if op == "xor":
@@ -1366,7 +1372,8 @@ class IntExec(Exec):
                     return iwrap((a.t % (1 << w)) / (1 << k), w)
                 if op == "lshr" and o.int_nowrap:
                     self.ub("ENC: negative operand of lshr outside the INT no-wrap encoding", ins, a.t < 0)
-                if op == "shl" and o.int_nowrap and "nsw" not in fl:
+                nowrap_shl = op == "shl" and o.int_nowrap and "nsw" not in fl
+                if nowrap_shl:
                     fl = set(fl) | {"nsw"}
                 if cb is not None:
                     r = sh(cb)
@@ -1375,7 +1382,13 @@ class IntExec(Exec):
                     r = sh(w - 1)
                     for k in range(w - 2, -1, -1):
                         r = z3.If(b.t == k, sh(k), r)
-                if op == "shl" and "nsw" in fl:
+                if nowrap_shl:
+                    # not UB (the IR's shl wraps): the shifted value is taken not to wrap, "it does" is a side condition of
+                    # the encoding; a result in [2^(w-1), 2^w) is kept as the unsigned representative and every signed use
+                    # of such a value is a side condition of its own
+                    self.ub("ENC: wrap-around outside the INT no-wrap encoding (shl)", ins,
+                            z3.Not(z3.And(r >= -(1 << (w - 1)), r < (1 << w))))
+                elif op == "shl" and "nsw" in fl:
                     self.ub("signed-overflow(shl)", ins, z3.Not(self.rng(r, w)))
                 env[ins.dest] = IV(r, w)
                 return
@@ -1407,8 +1420,7 @@ class IntExec(Exec):
             x, y = a.t, b.t
             if o.int_nowrap and w > 1 and pred[0] == "s":
                 for v in (a, b):
-                    if self.const(v) is None:
-                        self.ub("ENC: value >= 2^%d used as signed (icmp)" % (w - 1), ins, v.t >= (1 << (w - 1)))
+                    self.ub("ENC: value >= 2^%d used as signed (icmp)" % (w - 1), ins, v.t >= (1 << (w - 1)))
             if pred[0] == "u":
                 x, y = x % (1 << w), y % (1 << w)
             r = {"eq": x == y, "ne": x != y, "slt": x < y, "sle": x <= y, "sgt": x > y, "sge": x >= y,
@@ -1425,6 +1437,8 @@ class IntExec(Exec):
             if op == "zext":
                 env[ins.dest] = IV(a.t if a.w == 1 else a.t % (1 << a.w), w)
             elif op == "sext":
+                if o.int_nowrap and a.w > 1:
+                    self.ub("ENC: value >= 2^%d used as signed (sext)" % (a.w - 1), ins, a.t >= (1 << (a.w - 1)))
                 env[ins.dest] = IV(-a.t if a.w == 1 else a.t, w)
             else:
                 env[ins.dest] = IV(a.t % 2 if w == 1 else iwrap(a.t, w), w)
@@ -1520,6 +1534,11 @@ class IntExec(Exec):
                 raise Unsupported("cttz in INT mode")
             if name in o.stubs:
                 args = [self.operand(a, env) for a in ins.args]
+                if o.int_nowrap:
+                    for v in args:
+                        if isinstance(v, IV) and v.w > 1:
+                            self.ub("ENC: value >= 2^%d passed to a callee (read as signed there)" % (v.w - 1), ins,
+                                    v.t >= (1 << (v.w - 1)))
                 r = o.stubs[name](Ctx(self.res, o, self.pc), args)
                 self.res.calls.append((name, args, r))
                 if ins.dest:
